@@ -393,6 +393,7 @@ Proof.
   - (* MGetBuf *)
     destruct (mt_buf s) as [p | ] eqn:EB; [ | intros E; injection E as <- <- <-; reflexivity ].
     destruct (mt_jobs s) as [j | ] eqn:EJ; [ | intros E; injection E as <- <- <-; reflexivity ].
+    destruct (N.of_nat (length (mt_inflight s)) <? j); [ | intros E; injection E as <- <- <-; reflexivity ].
     destruct (get_buffer p cap ok) as [[p' got] e0] eqn:EG.
     destruct (get_buffer_live (z_bufpool z) (z_buffer z) p cap ok p' got e0
                 (B + z_mtctx z + factory_bytes z (mt_threads s) + jobs_bytes z (Some j) + sumN (mt_inflight s)
@@ -512,6 +513,7 @@ Proof.
   - intros E. destruct (mt_ldm_keeps _ _ _ _ _ _ _ E) as (-> & -> & ->). exact Hi.
   - destruct (mt_buf s) as [p | ] eqn:EB; [ | intros E; injection E as <- <- <-; rewrite ?EB, ?EJ; exact Hi ].
     destruct (mt_jobs s) as [j | ] eqn:EJ; [ | intros E; injection E as <- <- <-; rewrite ?EB, ?EJ; exact Hi ].
+    destruct (N.of_nat (length (mt_inflight s)) <? j); [ | intros E; injection E as <- <- <-; rewrite ?EB, ?EJ; exact Hi ].
     destruct (get_buffer p cap ok) as [[p' got] e0]. destruct got; intros E; injection E as <- <- <-; unfold upd_buf;
       cbn [mt_jobs mt_buf mt_inflight]; rewrite EJ; intros [H | H]; discriminate.
   - destruct (mt_buf s) as [p | ] eqn:EB; [ | intros E; injection E as <- <- <-; rewrite ?EB, ?EJ; exact Hi ].
